@@ -123,7 +123,7 @@ def load_known():
 
 
 def write_replay(ctx: Ctx, v: dict, idx: int) -> str:
-    d = os.path.join(VERIF, "replays")
+    d = os.path.join(VERIF, "replays") if REPO == "/repo" else "/tmp/verif_scratch_replays"
     os.makedirs(d, exist_ok=True)
     p = os.path.join(d, f"{ctx.pid}_{idx}_{digest(v)}.json")
     with open(p, "w") as f:
@@ -178,8 +178,9 @@ def finish(ctx: Ctx) -> int:
         "wall_s": round(wall, 2),
         "violations": len(ctx.violations),
     }
-    os.makedirs(os.path.join(VERIF, "evidence"), exist_ok=True)
-    evp = os.path.join(VERIF, "evidence", f"{ctx.pid}.json")
+    evdir = os.path.join(VERIF, "evidence") if REPO == "/repo" else "/tmp/verif_scratch_evidence"
+    os.makedirs(evdir, exist_ok=True)  # runs against a scratch copy (VERIF_REPO) never touch the committed evidence
+    evp = os.path.join(evdir, f"{ctx.pid}.json")
     with open(evp, "w") as f:
         json.dump(ev, f, indent=1, default=repr)
     try:
